@@ -245,6 +245,9 @@ Print propfail.
 """)
     out = run_coq_file(PROP, "cases", "\n".join(body))
     disagree = parse_nat_list(out, "disagree")
+    # the deliberate same-name project uses a type the emission-order model has no entry for (its import serials are
+    # not predicted); it takes part in the byte-equality oracle only
+    disagree = [k for k in disagree if not projects[k].get("local_same")]
     propfail = parse_nat_list(out, "propfail")
     for k in propfail[:2]:
         c = cases[k]
